@@ -475,11 +475,24 @@ fn with_response_texts(ops: Vec<String>, rng: &mut Rng, num: u64, den: u64) -> V
                     let spawned = std::thread::Builder::new().stack_size(16 << 20).spawn(move || {
                         let _ = tx.send(catch_unwind(AssertUnwindSafe(|| run_api(ov, &p, &b))).ok());
                     });
-                    if spawned.is_err() {
-                        return l;
-                    }
-                    match rx.recv_timeout(Duration::from_secs(20)) {
-                        Ok(Some(resp)) if resp.len() <= 65536 && order_independent(&resp) => {
+                    let Ok(handle) = spawned else { return l };
+                    // given up after 3 s of CPU time of the helper thread (or 60 s of wall time): a request that
+                    // hangs stays a plain `api` operation and is reported as `hang` when the case is executed
+                    let started = std::time::Instant::now();
+                    let resp = loop {
+                        match rx.recv_timeout(Duration::from_millis(100)) {
+                            Ok(r) => break r,
+                            Err(std::sync::mpsc::RecvTimeoutError::Disconnected) => break None,
+                            Err(std::sync::mpsc::RecvTimeoutError::Timeout) => {
+                                let burnt = thread_cpu(&handle).unwrap_or(started.elapsed());
+                                if burnt >= Duration::from_secs(3) || started.elapsed() >= Duration::from_secs(60) {
+                                    break None;
+                                }
+                            }
+                        }
+                    };
+                    match resp {
+                        Some(resp) if resp.len() <= 65536 && order_independent(&resp) => {
                             format!("apiresp {path} {body} {}", hex(resp.as_bytes()))
                         }
                         _ => l,
